@@ -229,3 +229,170 @@ ASSUMPTIONS = [
     "Tuple round trip proved for lengths 0..3 with JSON-native scalar items (the hooks are `list(value)` / `tuple(value)`: no per-length code); nested tuples are a known finding of the bounded layer",
     "the object-level loops (serialize_parameters / deserialize_parameters, subset=) are covered by the bounded layer only",
 ]
+
+
+# ---------------------------------------------------------------------------------------------
+# Object-level loops of param/serializer.py (JSONSerialization.serialize_parameters /
+# deserialize_parameters): every parameter of the subset, and only those, goes through its own hook
+# ---------------------------------------------------------------------------------------------
+def object_loop_contract(direction, with_subset):
+    from pyvc.loops import LoopSpec
+    holder = {}
+    valF = z3.Function("current_value", vm.V, vm.V)            # pobj.param.get_value_generator(name)
+    serF = z3.Function("hook_serialize", vm.V, vm.V, vm.V)     # p.serialize(value)
+    deserF = z3.Function("hook_deserialize", vm.V, vm.V, vm.V)  # p.deserialize(value)
+    paramF = z3.Function("parameter_named", vm.V, vm.V)        # pobj.param[name]
+    fname = "serialize_parameters" if direction == "ser" else "deserialize_parameters"
+
+    def configure(I):
+        def vmethod(I, st, name, selfv, args, kwargs, ctx):
+            if name in ("serialize", "deserialize") and isinstance(selfv, Sym):
+                f = serF if name == "serialize" else deserF
+                r = f(I.term(selfv), I.term(args[0]))
+                I.U.well_typed(r)
+                return [(st, Sym(r))]
+            return None
+        I.lib["$value_method"] = vmethod
+
+        def objects(I, st, fv, args, kwargs, ctx):
+            return [(st, holder["P"])]
+        I.contracts["Parameters.objects"] = objects
+
+        def gvg(I, st, fv, args, kwargs, ctx):
+            r = valF(I.term(args[0]))
+            I.U.well_typed(r)
+            return [(st, Sym(r))]
+        I.contracts["Parameters.get_value_generator"] = gvg
+
+        def getitem(I, st, fv, args, kwargs, ctx):
+            r = paramF(I.term(args[0]))
+            I.U.well_typed(r)
+            return [(st, Sym(r))]
+        I.contracts["Parameters.__getitem__"] = getitem
+
+        def dumps(I, st, fv, args, kwargs, ctx):
+            st.ghost["dumped"] = args[-1]
+            return [(st, Sym(I.U.fresh("json_text")))]
+        I.contracts["JSONSerialization.dumps"] = dumps
+
+        def loads(I, st, fv, args, kwargs, ctx):
+            return [(st, holder["D"])]
+        I.contracts["JSONSerialization.loads"] = loads
+
+    def setup(I, st):
+        U = I.U
+        pobj = I.alloc_obj(st, "Parameterized", lazy=True, label="pobj")
+        par = I.alloc_obj(st, "Parameters", lazy=True, label="pobj.param")
+        st.heap[pobj.oid].fields["param"] = par
+        P = I.alloc_dict(st, keys=U.fresh_seq("parameter_names"), vals=z3.Const("parameters", z3.ArraySort(vm.V, vm.V)))
+        D = I.alloc_dict(st, keys=U.fresh_seq("decoded_names"), vals=z3.Const("decoded_values", z3.ArraySort(vm.V, vm.V)))
+        k = U.fresh("some_name")
+        st.pc.append(vm.ty(k) == vm.TAG["str"])
+        holder.update({"P": P, "D": D, "k": k})
+        if with_subset:
+            sub = I.alloc_list(st, U.fresh_seq("subset"))
+            holder["allowed"] = I.seq_contains_eq(st.heap[sub.oid].seq, k)
+        else:
+            sub = Conc(None)
+            holder["allowed"] = z3.BoolVal(True)
+        cv = ClsV("JSONSerialization")
+        fv = I.bound_method(cv, I.src.find_method("JSONSerialization", fname))
+        args = [pobj] if direction == "ser" else [pobj, Sym(U.fresh("text"))]
+        return fv, args, {"subset": sub}, {"symbols": {}}
+
+    def comp(st):
+        r = st.env.get("components")
+        if not (isinstance(r, Ref) and st.heap[r.oid].kind == "dict"):
+            raise OutOfReach("`components` is no longer one mapping updated in place: the loop invariant does not apply")
+        return st.heap[r.oid]
+
+    def expected(I, st, key):
+        src = st.heap[(holder["P"] if direction == "ser" else holder["D"]).oid]
+        if direction == "ser":
+            return serF(z3.Select(src.vals, key), valF(key))
+        return deserF(paramF(key), z3.Select(src.vals, key))
+
+    def inv(I, st, pre):
+        k = holder["k"]
+        h = comp(st)
+        seen = z3.Contains(pre.seq, z3.Unit(k))
+        has = z3.Contains(h.keys, z3.Unit(k))
+        return z3.And(has == z3.And(seen, holder["allowed"]), z3.Implies(has, z3.Select(h.vals, k) == expected(I, st, k)))
+
+    def havoc(I, st):
+        h = comp(st)
+        h.keys = I.U.fresh_seq("component_names")
+        h.vals = z3.Const("component_values!%d" % I.new_oid(), z3.ArraySort(vm.V, vm.V))
+        h.ckeys = None
+        h.fields.pop("$entries", None)
+        for f in [f for f in h.fields if isinstance(f, tuple)]:
+            h.fields.pop(f)
+
+    def post(I, info, st, oc):
+        if isinstance(oc, Raise):
+            return [("does-not-raise", z3.BoolVal(False))]
+        k = holder["k"]
+        res = st.ghost.get("dumped") if direction == "ser" else oc
+        if not (isinstance(res, Ref) and st.heap[res.oid].kind == "dict"):
+            return [("the components mapping is what is encoded / returned", z3.BoolVal(False))]
+        h = st.heap[res.oid]
+        src = st.heap[(holder["P"] if direction == "ser" else holder["D"]).oid]
+        has = z3.Contains(h.keys, z3.Unit(k))
+        return [("a name is present exactly when it is a parameter of the object (an entry of the text) and in the subset",
+                 has == z3.And(z3.Contains(src.keys, z3.Unit(k)), holder["allowed"])),
+                ("each value went through the hook of its own parameter, with its own value",
+                 z3.Implies(has, z3.Select(h.vals, k) == expected(I, st, k)))]
+    hdr = "objects('existing')" if direction == "ser" else "deserialized.items()"
+    loops = {("JSONSerialization.%s" % fname, hdr): LoopSpec(hdr, inv=inv, heap=havoc, name="every-parameter-of-the-subset")}
+    c = FunctionContract("param.serializer:JSONSerialization.%s" % fname, PROP, setup, post, configure=configure, loops=loops,
+                         name="JSONSerialization.%s[%s, arbitrary parameters]" % (fname, "subset" if with_subset else "no subset"))
+    c.static_replay = OBJECT_LOOP_REPLAY
+    c.static_witness = "serialize_parameters / deserialize_parameters with and without subset vs the per-parameter hooks"
+    return c
+
+
+OBJECT_LOOP_REPLAY = '''import sys, os, json, itertools
+sys.path.insert(0, os.environ.get('PYVC_REPO', '/repo'))
+import param, datetime as dt
+bad = []
+class P(param.Parameterized):
+    i = param.Integer(3)
+    t = param.Tuple((1, 2))
+    d = param.Date(dt.datetime(2020, 1, 2, 3, 4, 5))
+    s = param.String('x')
+names = ['name', 'i', 't', 'd', 's']
+for obj in (P, P(i=5, s='y')):
+    for r in range(len(names) + 1):
+        for subset in [None] + [list(c) for c in itertools.combinations(names, r)]:
+            text = obj.param.serialize_parameters(subset=subset)
+            got = json.loads(text)
+            want_keys = set(names if subset is None else subset)
+            if set(got) != want_keys:
+                bad.append('serialize_parameters(subset=%r): keys %r' % (subset, sorted(got)))
+                continue
+            for n in got:
+                if got[n] != json.loads(obj.param.serialize_value(n)):
+                    bad.append('serialize_parameters(subset=%r)[%r] == %r, serialize_value gives %s' % (subset, n, got[n], obj.param.serialize_value(n)))
+            full = obj.param.serialize_parameters()
+            back = obj.param.deserialize_parameters(full, subset=subset)
+            if set(back) != want_keys:
+                bad.append('deserialize_parameters(subset=%r): keys %r' % (subset, sorted(back)))
+                continue
+            for n in back:
+                w = obj.param.deserialize_value(n, json.dumps(json.loads(full)[n]))
+                if back[n] != w or type(back[n]) is not type(w):
+                    bad.append('deserialize_parameters(subset=%r)[%r] == %r, deserialize_value gives %r' % (subset, n, back[n], w))
+if bad:
+    print('REPRODUCED: C15 object-level (de)serialization does not apply the hook of each parameter to exactly the subset:')
+    for b in bad[:6]:
+        print('  ', b)
+    sys.exit(1)
+print('NOT-REPRODUCED'); sys.exit(0)
+'''
+
+
+_c15_base = contracts
+
+
+def contracts():
+    return _c15_base() + [object_loop_contract(d, s) for d in ("ser", "deser") for s in (False, True)]
